@@ -77,6 +77,7 @@ DEFAULT_PROFILE = {
     'p_stop_polling': 0.05,
     'p_raw_bodies': 0.0,
     'raw_bad': 0.15,
+    'p_late_open': 0.1,
 }
 
 
@@ -104,7 +105,8 @@ LINE_CLIENT = ['_write_loop', '_read_loop_polling', '_read_loop_websocket',
                '_trigger_event', 'run_handler', 'wait', '_send_request']
 
 
-def line_decorate(rng, plan, hot=None, pool=None):
+def line_decorate(rng, plan, hot=None, pool=None, stall=0.0,
+                  stalls=(2, 8, 8, 32, 256)):
     """Turn ``plan`` into a line-granularity run (kernel.enable_lines)."""
     pool = pool or LINE_SERVER
     r = rng.random()
@@ -117,6 +119,16 @@ def line_decorate(rng, plan, hot=None, pool=None):
         spec = {'mean': rng.choice([4, 8, 16]), 'focus': None}
     spec['max'] = rng.choice([16, 64, 1000])
     plan['line'] = spec
+    if stall and rng.random() < stall:
+        # the pre-empted thread is kept away for a few ticks of virtual time
+        # (what an OS thread that lost the CPU looks like from outside); a
+        # handful of such stalls, inside chosen functions
+        spec['stall'] = rng.choice(list(stalls))
+        spec['max'] = rng.choice([2, 4, 8])
+        spec['mean'] = rng.choice([2, 4, 8, 16])
+        if not spec.get('focus'):
+            spec['focus'] = sorted(rng.sample(pool, 2))
+        return plan
     fl = rng.choice([None, 0, 0, 0, 1])
     if fl is not None:
         plan['fixed_latency'] = fl
@@ -192,6 +204,9 @@ def gen_server_plan(rng, prof=None):
         s = {'open': 'websocket' if rng.random() < p['p_ws_open']
              else 'polling',
              't_open': ticks(rng, 0.0, 1.0)}
+        if rng.random() < p.get('p_late_open', 0.0):
+            # churn: this client arrives when others have come and gone
+            s['t_open'] = ticks(rng, 1.0, span + I + 3 * T)
         if rng.random() < p['p_jsonp'] and s['open'] == 'polling':
             s['jsonp'] = rng.choice([0, 1, 7, 233])
         s['poll'] = {'mode': 'auto', 'gap': rng.choice([1, 1, 2, 8, 64])}
@@ -540,7 +555,8 @@ def client_race_cluster(rng, plan):
     return plan
 
 
-def with_lines(gen, hot=None, p=0.25, cluster=0.5, few=0.3):
+def with_lines(gen, hot=None, p=0.25, cluster=0.5, few=0.3, stall=0.35,
+               stalls=(2, 8, 8, 32, 256)):
     """Wrap a plan generator: a share ``p`` of the plans that involve threaded
     code of the package run at line granularity."""
     def g(rng, tier, i):
@@ -555,7 +571,12 @@ def with_lines(gen, hot=None, p=0.25, cluster=0.5, few=0.3):
             pool += LINE_CLIENT
         if pool and rng.random() < p:
             line_decorate(rng, plan, [x for x in (hot or []) if x in pool],
-                          sorted(set(pool)))
+                          sorted(set(pool)),
+                          stall=stall if cl is None else 0.0, stalls=stalls)
+            if plan['line'].get('stall'):
+                if rng.random() < few:
+                    few_sessions(rng, plan)
+                return plan
             if cl is None and rng.random() < few:
                 few_sessions(rng, plan)
             if cl is None and rng.random() < cluster:
